@@ -178,7 +178,8 @@ func (f *faultRuler) RunRules(ctx context.Context, creds *checker.Credentials, a
 			}
 		}
 	}
-	if n := len(data); n > 1 && len(res) == n && data[n-1] != nil && f.ctl.hit("ruler-short", data[n-1].PubKey) {
+	// For a single request the short list is the empty one (the signer then has no verdict at all for it).
+	if n := len(data); n >= 1 && len(res) == n && data[n-1] != nil && f.ctl.hit("ruler-short", data[n-1].PubKey) {
 		res = res[:n-1]
 	}
 	return res
